@@ -121,7 +121,9 @@ var C10 = register(&HistProp{ID: "C10",
 // branchExec runs msg through the real message router on a throw-away branch of the
 // committed state and reports whether it succeeded and whether it changed any store.
 func branchExec(c *chain.Chain, tag string, msg sdk.Msg) (ok bool, changed string, errText string) {
-	ctx := c.Branch(tag)
+	outer := c.Branch(tag)
+	// like baseapp.runMsgs: the message runs on its own cache, written back only on success
+	ctx, write := outer.CacheContext()
 	h := c.App.MsgServiceRouter().Handler(msg)
 	if h == nil {
 		panic("no handler for " + sdk.MsgTypeURL(msg))
@@ -137,10 +139,11 @@ func branchExec(c *chain.Chain, tag string, msg sdk.Msg) (ok bool, changed strin
 			errText = err.Error()
 		} else {
 			ok = true
+			write()
 		}
 	}()
 	pre := append(c.RawKV(c.CctpKey), c.RawKV(c.LedgKey)...)
-	post := append(chain.DumpStore(ctx.KVStore(c.CctpKey)), chain.DumpStore(ctx.KVStore(c.LedgKey))...)
+	post := append(chain.DumpStore(outer.KVStore(c.CctpKey)), chain.DumpStore(outer.KVStore(c.LedgKey))...)
 	if !sameDump(pre, post) {
 		changed = dumpDelta(pre, post)
 	}
